@@ -10,6 +10,7 @@ Releases: 47 = 1.8.x; 107 = 1.9; 108 = 1.9.1; 109 = 1.9.2; 110 = 1.9.3/4;
 751 = 1.16.2; 753 = 1.16.3; 754 = 1.16.4/5; 755 = 1.17; 756 = 1.17.1;
 757 = 1.18/1.18.1.
 """
+from . import codec, framing
 
 RELEASES = [47, 107, 108, 109, 110, 210, 315, 316, 335, 338, 340, 393, 401,
             404, 477, 480, 485, 490, 498, 573, 575, 578, 735, 736, 751, 753,
@@ -89,6 +90,395 @@ def ids(version):
     return t
 
 
+# ===========================================================================
+# Layouts of the core packet set (C07), transcribed from the protocol
+# documentation per release, and an encoder/decoder over them built only from
+# vf.refproto.codec primitives.
+#
+# A layout is a list of (field name, wire type).  Wire types:
+#   varint   VarInt (signed 32-bit, two's complement on the wire)
+#   ubyte / byte / ushort / int / long      big-endian fixed width
+#   float / double                          IEEE-754 big-endian
+#   bool                                    one byte 00 / 01
+#   string   VarInt byte length + UTF-8 (Identifier and Chat are strings)
+#   uuid     16 bytes, most significant first (value: hyphenated hex text)
+#   bytes    VarInt length + that many bytes
+#   rest     all remaining bytes of the packet
+#   strings  VarInt count + that many strings
+#   nbt      one named-root TAG_Compound (network NBT before 1.20.2: type byte
+#            0a, 2-byte name length, name, entries, 00); value form see nbt()
+# ===========================================================================
+
+_STATIC_LAYOUTS = {
+    'sb.handshake': [('protocol_version', 'varint'), ('server_address', 'string'),
+                     ('server_port', 'ushort'), ('next_state', 'varint')],
+    'sb.status.request': [],
+    'sb.status.ping': [('payload', 'long')],
+    'status.response': [('json', 'string')],
+    'status.pong': [('payload', 'long')],
+    'sb.login.start': [('name', 'string')],
+    'sb.login.encryption_response': [('shared_secret', 'bytes'),
+                                     ('verify_token', 'bytes')],
+    'login.disconnect': [('reason', 'string')],
+    'login.encryption_request': [('server_id', 'string'),
+                                 ('public_key', 'bytes'),
+                                 ('verify_token', 'bytes')],
+    'login.set_compression': [('threshold', 'varint')],
+    'login.plugin_request': [('message_id', 'varint'), ('channel', 'string'),
+                             ('data', 'rest')],
+    # 'data' is present only when 'successful' is true (special-cased below)
+    'sb.login.plugin_response': [('message_id', 'varint'),
+                                 ('successful', 'bool'), ('data', 'rest')],
+    'play.disconnect': [('reason', 'string')],
+    'play.set_compression': [('threshold', 'varint')],
+    'sb.play.chat': [('message', 'string')],
+    'sb.play.position_and_look': [('x', 'double'), ('feet_y', 'double'),
+                                  ('z', 'double'), ('yaw', 'float'),
+                                  ('pitch', 'float'), ('on_ground', 'bool')],
+    'sb.play.teleport_confirm': [('teleport_id', 'varint')],
+}
+
+
+def _join_game(v):
+    if v == 47 or v == 107:         # 1.8.x, 1.9
+        return [('entity_id', 'int'), ('gamemode', 'ubyte'),
+                ('dimension', 'byte'), ('difficulty', 'ubyte'),
+                ('max_players', 'ubyte'), ('level_type', 'string'),
+                ('reduced_debug_info', 'bool')]
+    if v < 477:                     # 1.9.1 .. 1.13.2
+        return [('entity_id', 'int'), ('gamemode', 'ubyte'),
+                ('dimension', 'int'), ('difficulty', 'ubyte'),
+                ('max_players', 'ubyte'), ('level_type', 'string'),
+                ('reduced_debug_info', 'bool')]
+    if v < 573:                     # 1.14.x
+        return [('entity_id', 'int'), ('gamemode', 'ubyte'),
+                ('dimension', 'int'), ('max_players', 'ubyte'),
+                ('level_type', 'string'), ('view_distance', 'varint'),
+                ('reduced_debug_info', 'bool')]
+    if v < 735:                     # 1.15.x
+        return [('entity_id', 'int'), ('gamemode', 'ubyte'),
+                ('dimension', 'int'), ('hashed_seed', 'long'),
+                ('max_players', 'ubyte'), ('level_type', 'string'),
+                ('view_distance', 'varint'), ('reduced_debug_info', 'bool'),
+                ('enable_respawn_screen', 'bool')]
+    if v < 751:                     # 1.16, 1.16.1
+        return [('entity_id', 'int'), ('gamemode', 'ubyte'),
+                ('previous_gamemode', 'ubyte'), ('world_names', 'strings'),
+                ('dimension_codec', 'nbt'), ('dimension', 'string'),
+                ('world_name', 'string'), ('hashed_seed', 'long'),
+                ('max_players', 'ubyte'), ('view_distance', 'varint'),
+                ('reduced_debug_info', 'bool'),
+                ('enable_respawn_screen', 'bool'), ('is_debug', 'bool'),
+                ('is_flat', 'bool')]
+    if v < 757:                     # 1.16.2 .. 1.17.1
+        return [('entity_id', 'int'), ('is_hardcore', 'bool'),
+                ('gamemode', 'ubyte'), ('previous_gamemode', 'byte'),
+                ('world_names', 'strings'), ('dimension_codec', 'nbt'),
+                ('dimension', 'nbt'), ('world_name', 'string'),
+                ('hashed_seed', 'long'), ('max_players', 'varint'),
+                ('view_distance', 'varint'), ('reduced_debug_info', 'bool'),
+                ('enable_respawn_screen', 'bool'), ('is_debug', 'bool'),
+                ('is_flat', 'bool')]
+    return [('entity_id', 'int'), ('is_hardcore', 'bool'),      # 1.18
+            ('gamemode', 'ubyte'), ('previous_gamemode', 'byte'),
+            ('world_names', 'strings'), ('dimension_codec', 'nbt'),
+            ('dimension', 'nbt'), ('world_name', 'string'),
+            ('hashed_seed', 'long'), ('max_players', 'varint'),
+            ('view_distance', 'varint'), ('simulation_distance', 'varint'),
+            ('reduced_debug_info', 'bool'),
+            ('enable_respawn_screen', 'bool'), ('is_debug', 'bool'),
+            ('is_flat', 'bool')]
+
+
+def layout(name, version):
+    """[(field, wire type)] of one core packet in one release, or None when
+    the packet does not exist in that release."""
+    if version not in ERA_OF:
+        raise KeyError(version)
+    if name not in ids(version):
+        return None
+    if name in _STATIC_LAYOUTS:
+        return list(_STATIC_LAYOUTS[name])
+    v = version
+    if name in ('play.keep_alive', 'sb.play.keep_alive'):
+        # VarInt up to 1.12.1 (338), Long from 1.12.2 (340)
+        return [('keep_alive_id', 'varint' if v <= 338 else 'long')]
+    if name == 'login.success':
+        # hyphenated text up to 1.15.2 (578), 16 raw bytes from 1.16 (735)
+        return [('uuid', 'string' if v <= 578 else 'uuid'),
+                ('username', 'string')]
+    if name == 'play.chat':
+        L = [('json', 'string'), ('position', 'byte')]
+        if v >= 735:                # 1.16
+            L.append(('sender', 'uuid'))
+        return L
+    if name == 'play.position_and_look':
+        L = [('x', 'double'), ('y', 'double'), ('z', 'double'),
+             ('yaw', 'float'), ('pitch', 'float'), ('flags', 'byte')]
+        if v >= 107:                # 1.9
+            L.append(('teleport_id', 'varint'))
+        if v >= 755:                # 1.17
+            L.append(('dismount_vehicle', 'bool'))
+        return L
+    if name == 'play.join_game':
+        return _join_game(v)
+    raise KeyError(name)
+
+
+# what this table deliberately leaves unjudged (reported in C07's evidence)
+NOT_JUDGED = [
+    'numeric interpretation of VarInt fields (signed vs 2^32-wrapped): only '
+    'the bytes are part of the layout; signedness is the subject of C02/C03',
+    'signedness of Join Game "previous gamemode" (documented Unsigned Byte in '
+    '1.16/1.16.1, Byte with -1 = none from 1.16.2): one byte either way',
+    'semantic range limits (string length caps, enum ranges): not layout',
+    'absence of a packet from a release (e.g. Teleport Confirm in 1.8, login '
+    'plugin messages before 1.13): only presence is published per release',
+    'NBT inside Join Game: only TAG_Byte/Short/Int/Long/Float/Double/String/'
+    'List/Compound with BMP names; the real dimension codec content is not '
+    'transcribed',
+]
+
+
+# -- tiny NBT (hand encoder) --------------------------------------------------
+# value form (lists or tuples, so that it survives JSON):
+#   (kind, n)   kind in byte/short/int/long       (kind, x)  float/double
+#   ('string', s)
+#   ('list', element kind, [items])   items are bare payloads: numbers, str,
+#                                     or entry lists when element kind is
+#                                     'compound' (lists of lists not supported)
+#   ('compound', [(name, value), ...])            entry order is wire order
+
+_NBT_ID = {'end': 0, 'byte': 1, 'short': 2, 'int': 3, 'long': 4, 'float': 5,
+           'double': 6, 'string': 8, 'list': 9, 'compound': 10}
+_NBT_KIND = {i: k for k, i in _NBT_ID.items()}
+_NBT_INT = {'byte': 1, 'short': 2, 'int': 4, 'long': 8}
+
+
+def _nbt_str(s):
+    for ch in s:            # modified UTF-8 == UTF-8 on U+0001..U+FFFF
+        if not 0 < ord(ch) < 0x10000:
+            raise ValueError('outside the judged NBT string subset')
+    raw = codec.utf8(s)
+    return codec.uint(len(raw), 2) + raw
+
+
+def _nbt_bare(kind, p):
+    """payload bytes of a bare payload p of the given kind"""
+    if kind in _NBT_INT:
+        return codec.sint(p, _NBT_INT[kind])
+    if kind == 'float':
+        return codec.f32(p)
+    if kind == 'double':
+        return codec.f64(p)
+    if kind == 'string':
+        return _nbt_str(p)
+    if kind == 'compound':
+        out = b''
+        for name, v in p:
+            out += codec.uint(_NBT_ID[v[0]], 1) + _nbt_str(name) + \
+                _nbt_value(v)
+        return out + b'\x00'
+    raise KeyError(kind)
+
+
+def _nbt_value(v):
+    """payload bytes of a (kind, ...) value"""
+    if v[0] == 'list':
+        ekind, items = v[1], v[2]
+        if ekind == 'list':
+            raise KeyError('list of lists')
+        return (codec.uint(_NBT_ID[ekind], 1) + codec.sint(len(items), 4) +
+                b''.join(_nbt_bare(ekind, it) for it in items))
+    return _nbt_bare(v[0], v[1])
+
+
+def nbt(value, root_name=''):
+    """Network NBT (named root) of a ('compound', entries) value."""
+    if value[0] != 'compound':
+        raise ValueError('root must be a compound')
+    return b'\x0a' + _nbt_str(root_name) + _nbt_value(value)
+
+
+def _nbt_read_str(r):
+    return r.take(r.uint(2)).decode('utf-8')
+
+
+def _nbt_read_bare(r, kind):
+    if kind in _NBT_INT:
+        return r.sint(_NBT_INT[kind])
+    if kind == 'float':
+        return r.f32()
+    if kind == 'double':
+        return r.f64()
+    if kind == 'string':
+        return _nbt_read_str(r)
+    if kind == 'compound':
+        out = []
+        while True:
+            t = r.uint(1)
+            if t == 0:
+                return out
+            k = _NBT_KIND[t]
+            name = _nbt_read_str(r)
+            out.append((name, _nbt_read_value(r, k)))
+    raise KeyError(kind)
+
+
+def _nbt_read_value(r, kind):
+    if kind == 'list':
+        ekind = _NBT_KIND[r.uint(1)]
+        n = r.sint(4)
+        if ekind == 'list':
+            raise KeyError('list of lists')
+        return ('list', ekind, [_nbt_read_bare(r, ekind) for _ in range(n)])
+    return (kind, _nbt_read_bare(r, kind))
+
+
+def read_nbt(r):
+    """-> (root name, ('compound', entries))"""
+    if r.uint(1) != 0x0a:
+        raise codec.Malformed('NBT root is not a compound')
+    name = _nbt_read_str(r)
+    return name, _nbt_read_value(r, 'compound')
+
+
+def nbt_canon(v):
+    """Nested tuples (for comparing values that may have been through JSON)."""
+    if v[0] == 'list':
+        if v[1] == 'compound':
+            return ('list', 'compound', tuple(
+                tuple((n, nbt_canon(x)) for n, x in it) for it in v[2]))
+        return ('list', v[1], tuple(v[2]))
+    if v[0] == 'compound':
+        return ('compound', tuple((n, nbt_canon(x)) for n, x in v[1]))
+    return (v[0], v[1])
+
+
+# -- field codec ----------------------------------------------------------------
+
+def enc_field(typ, v):
+    if typ == 'varint':
+        return codec.varint_signed(_s32(v))
+    if typ == 'ubyte':
+        return codec.uint(v, 1)
+    if typ == 'byte':
+        return codec.sint(v, 1)
+    if typ == 'ushort':
+        return codec.uint(v, 2)
+    if typ == 'int':
+        return codec.sint(v, 4)
+    if typ == 'long':
+        return codec.sint(v, 8)
+    if typ == 'float':
+        return codec.f32(v)
+    if typ == 'double':
+        return codec.f64(v)
+    if typ == 'bool':
+        if v is not True and v is not False:
+            raise TypeError(v)
+        return codec.boolean(v)
+    if typ == 'string':
+        return codec.string(v)
+    if typ == 'uuid':
+        return codec.uuid_bytes(v)
+    if typ == 'bytes':
+        return codec.var_bytes(v)
+    if typ == 'rest':
+        return bytes(v)
+    if typ == 'strings':
+        return codec.varnum(len(v)) + b''.join(codec.string(s) for s in v)
+    if typ == 'nbt':
+        return nbt(v)
+    raise KeyError(typ)
+
+
+def _s32(v):
+    if not -(1 << 31) <= v < (1 << 31):
+        raise OverflowError(v)
+    return v
+
+
+def dec_field(typ, r):
+    if typ == 'varint':
+        n = r.varnum(5)
+        if n >= 1 << 32:
+            raise codec.Malformed('VarInt over 32 bits')
+        return n - (1 << 32) if n >> 31 else n
+    if typ == 'ubyte':
+        return r.uint(1)
+    if typ == 'byte':
+        return r.sint(1)
+    if typ == 'ushort':
+        return r.uint(2)
+    if typ == 'int':
+        return r.sint(4)
+    if typ == 'long':
+        return r.sint(8)
+    if typ == 'float':
+        return r.f32()
+    if typ == 'double':
+        return r.f64()
+    if typ == 'bool':
+        b = r.take(1)
+        if b not in (b'\x00', b'\x01'):
+            raise codec.Malformed('boolean byte %r' % b)
+        return b == b'\x01'
+    if typ == 'string':
+        return r.string()
+    if typ == 'uuid':
+        return r.uuid()
+    if typ == 'bytes':
+        return r.var_bytes()
+    if typ == 'rest':
+        return r.rest()
+    if typ == 'strings':
+        return [r.string() for _ in range(r.varnum(5))]
+    if typ == 'nbt':
+        name, v = read_nbt(r)
+        if name != '':
+            raise codec.Malformed('NBT root name %r' % name)
+        return v
+    raise KeyError(typ)
+
+
+def encode(name, version, values):
+    """Payload bytes (without id) of one core packet.  values: field -> value;
+    every field of the layout must be given (and nothing else)."""
+    L = layout(name, version)
+    if L is None:
+        raise KeyError('%s does not exist in %d' % (name, version))
+    if name == 'sb.login.plugin_response' and not values['successful']:
+        if values.get('data') is not None:
+            raise ValueError('data without successful')
+        L = L[:2]
+        values = {k: values[k] for k in ('message_id', 'successful')}
+    if sorted(values) != sorted(f for f, _ in L):
+        raise KeyError('fields %r, layout %r' % (sorted(values), L))
+    return b''.join(enc_field(t, values[f]) for f, t in L)
+
+
+def decode(name, version, payload):
+    """Inverse of encode; the payload must be consumed exactly."""
+    L = layout(name, version)
+    r = codec.Reader(payload)
+    out = {}
+    for f, t in L:
+        if name == 'sb.login.plugin_response' and f == 'data' and \
+                not out['successful']:
+            out[f] = None
+            continue
+        out[f] = dec_field(t, r)
+    if r.left:
+        raise codec.Malformed('%d bytes left over' % r.left)
+    return out
+
+
+def packet_frame(name, version, values):
+    """Uncompressed frame: VarInt length, VarInt id, payload."""
+    return framing.frame(ids(version)[name], encode(name, version, values))
+
+
 def selftest():
     assert sorted(ERA_OF) == sorted(RELEASES)
     for v in RELEASES:
@@ -97,4 +487,78 @@ def selftest():
         assert len(cb) == len(set(cb)), v
         sb = [t[k] for k in t if k.startswith('sb.play.')]
         assert len(sb) == len(set(sb)), v
+    _selftest_layouts()
+    return True
+
+
+def _selftest_layouts():
+    # hand-assembled vectors
+    assert packet_frame('sb.handshake', 47, {
+        'protocol_version': 47, 'server_address': 'localhost',
+        'server_port': 25565, 'next_state': 2}) == \
+        bytes.fromhex('0f 00 2f 09') + b'localhost' + bytes.fromhex('63dd 02')
+    assert packet_frame('sb.status.request', 757, {}) == b'\x01\x00'
+    assert packet_frame('play.keep_alive', 338, {'keep_alive_id': 300}) == \
+        bytes.fromhex('03 1f ac02')
+    assert packet_frame('play.keep_alive', 340, {'keep_alive_id': -2}) == \
+        bytes.fromhex('09 1f fffffffffffffffe')
+    assert packet_frame('sb.play.keep_alive', 47, {'keep_alive_id': -1}) == \
+        bytes.fromhex('06 00 ffffffff0f')
+    assert encode('login.success', 578, {
+        'uuid': '01234567-89ab-cdef-0123-456789abcdef', 'username': 'ab'}) \
+        == b'\x24' + b'01234567-89ab-cdef-0123-456789abcdef' + b'\x02ab'
+    assert encode('login.success', 735, {
+        'uuid': '01234567-89ab-cdef-0123-456789abcdef', 'username': 'ab'}) \
+        == bytes.fromhex('0123456789abcdef0123456789abcdef') + b'\x02ab'
+    assert encode('play.position_and_look', 47, {
+        'x': 1.0, 'y': -2.0, 'z': 0.5, 'yaw': 90.0, 'pitch': -45.0,
+        'flags': 0x1f}) == bytes.fromhex(
+        '3ff0000000000000 c000000000000000 3fe0000000000000 '
+        '42b40000 c2340000 1f')
+    assert encode('play.position_and_look', 755, {
+        'x': 0.0, 'y': 0.0, 'z': 0.0, 'yaw': 0.0, 'pitch': 0.0, 'flags': 0,
+        'teleport_id': 128, 'dismount_vehicle': True})[-3:] == b'\x80\x01\x01'
+    assert nbt(('compound', [])) == bytes.fromhex('0a 0000 00')
+    assert nbt(('compound', [('a', ('int', 5))])) == \
+        bytes.fromhex('0a 0000 03 0001 61 00000005 00')
+    assert nbt(('compound', [('l', ('list', 'string', ['x', 'yz']))])) == \
+        bytes.fromhex('0a0000 09 0001 6c 08 00000002 0001 78 0002 797a 00')
+    assert encode('play.join_game', 47, {
+        'entity_id': 1, 'gamemode': 9, 'dimension': -1, 'difficulty': 2,
+        'max_players': 20, 'level_type': 'flat',
+        'reduced_debug_info': False}) == \
+        bytes.fromhex('00000001 09 ff 02 14 04') + b'flat' + b'\x00'
+    assert encode('sb.login.plugin_response', 404, {
+        'message_id': 7, 'successful': False, 'data': None}) == b'\x07\x00'
+    assert encode('sb.login.plugin_response', 404, {
+        'message_id': 7, 'successful': True, 'data': b'xy'}) == b'\x07\x01xy'
+    # every layout round-trips through the reference decoder
+    deep = ('compound', [
+        ('b', ('byte', -1)), ('s', ('short', 300)), ('i', ('int', -5)),
+        ('l', ('long', 1 << 40)), ('f', ('float', 0.5)),
+        ('d', ('double', 0.1)), ('t', ('string', 'h\u00e9')),
+        ('c', ('compound', [('x', ('int', 1))])),
+        ('n', ('list', 'int', [1, 2, 3])),
+        ('m', ('list', 'compound', [[('k', ('string', 'v'))], []]))])
+    wit = {'varint': 300, 'ubyte': 200, 'byte': -3, 'ushort': 40000,
+           'int': -70000, 'long': -(1 << 40), 'float': 1.5, 'double': 0.1,
+           'bool': True, 'string': 'h\u00e9llo', 'bytes': b'\x00\x01\x02',
+           'uuid': '01234567-89ab-cdef-0123-456789abcdef', 'rest': b'\xff\x00',
+           'strings': ['a', 'b\u20ac'], 'nbt': deep}
+    names = set()
+    for v in RELEASES:
+        for name in ids(v):
+            L = layout(name, v)
+            assert L is not None, (name, v)
+            names.add(name)
+            vals = {f: wit[t] for f, t in L}
+            back = decode(name, v, encode(name, v, vals))
+            for f, t in L:
+                if t == 'nbt':
+                    assert nbt_canon(back[f]) == nbt_canon(vals[f]), (name, v)
+                else:
+                    assert back[f] == vals[f], (name, v, f)
+    assert layout('sb.play.teleport_confirm', 47) is None
+    assert layout('login.plugin_request', 340) is None
+    assert len(names) == 23, sorted(names)
     return True
